@@ -9,7 +9,7 @@ from fractions import Fraction
 import rk
 import tast
 from symx import FACTS
-from poly import Poly, DEFS, ATOM_TY
+from poly import Poly, DEFS, ATOM_TY, opaque
 
 INF = float("inf")
 
@@ -388,6 +388,16 @@ def reject_factor(f, fn):
                     continue
                 d_ = st_["T"] - Poly.atom("X")
                 if len(d_.t) != 1:
+                    # a landing step h = xend - x: the retried step is compared with its magnitude |xend - x|
+                    for cand_u in (opaque("abs", [d_]), opaque("abs", [-d_])):
+                        ua = cand_u.single_atom()
+                        if ua in hv.atoms():
+                            c2_ = hv.div(cand_u)
+                            if ua not in c2_.atoms():
+                                g = c2_
+                                break
+                    if g is not None:
+                        break
                     continue
                 (m_, c_), = d_.t.items()
                 um = tuple((a_, e_) for a_, e_ in m_ if not (a_.startswith("signum[") or a_ in ("posneg", "direction")))
